@@ -322,6 +322,22 @@ func c16Templates() []c16Template {
 			{labels: []string{"t"}, attrs: []c16Attr{{"mode", `"zz"`, sv("zz")}}, marker: "m_l1", docs: true, keyLabels: []int{0}, unknown: true},
 			{labels: []string{"u"}, unknown: true},
 		}})
+	// T5b: two levels where the STATIC body declares a key attribute too: the first level is keyed by label + that
+	// attribute, the second by label + the key attribute of the first-level body (the static key is not part of it)
+	ts = append(ts, c16Template{id: "2level-static-key", block: "prov", markers: []string{"m_s1", "m_s2"},
+		mk: func() *schema.BodySchema {
+			return refDecl(&schema.BodySchema{Blocks: map[string]*schema.BlockSchema{"prov": {
+				Labels: []*schema.LabelSchema{{Name: "type", IsDepKey: true}},
+				Body:   &schema.BodySchema{Attributes: map[string]*schema.AttributeSchema{"tier": strKey()}},
+				DependentBody: map[schema.SchemaKey]*schema.BodySchema{
+					depKey([]schema.LabelDependent{lbl(0, "t")}, []schema.AttributeDependent{attrDep("tier", cty.StringVal("gold"))}): mkMarker("m_s1", true, func(b *schema.BodySchema) { b.Attributes["mode"] = strKey() }),
+					depKey([]schema.LabelDependent{lbl(0, "t")}, []schema.AttributeDependent{attrDep("mode", cty.StringVal("m"))}):    mkMarker("m_s2", true, func(b *schema.BodySchema) { b.Attributes["mode"] = strKey() }),
+				}}}})
+		},
+		sels: []c16Sel{
+			{labels: []string{"t"}, attrs: []c16Attr{{"tier", `"gold"`, sv("gold")}}, marker: "m_s1", docs: true, keyLabels: []int{0}, keyAttrs: []string{"tier"}, unknown: true}, // (second level not found: partially resolved)
+			{labels: []string{"t"}, attrs: []c16Attr{{"tier", `"gold"`, sv("gold")}, {"mode", `"m"`, sv("m")}}, marker: "m_s2", docs: true, keyLabels: []int{0}, keyAttrs: []string{"mode"}},
+		}})
 	// T6: label and attribute of the static body on one level
 	ts = append(ts, c16Template{id: "label+attr", block: "mix", markers: []string{"m_ak1", "m_a"},
 		mk: func() *schema.BodySchema {
